@@ -16,10 +16,17 @@ def signum(sig):
     return SIGNUM[sig]
 
 
+# the API as documented in the rustdoc of job.rs; used for the failing-input search when the translator no longer
+# recognises the source (that is reported as a broken tie by the driver in any case)
+DOC_API = {"start": ("Normal", ["Start"]), "stop": ("Normal", ["Stop"]), "stop_with_signal": ("Normal", ["GracefulStop"]),
+           "restart": ("Normal", ["Stop", "Start"]), "restart_with_signal": ("Normal", ["GracefulStop", "Start"]),
+           "try_restart": ("Normal", ["TryRestart"]), "try_restart_with_signal": ("Normal", ["TryGracefulRestart"]),
+           "signal": ("Normal", ["Signal"]), "delete": ("Normal", ["Stop", "Delete"]), "delete_now": ("Urgent", ["Stop", "Delete"]),
+           "to_wait": ("High", ["NextEnding"])}
+
+
 def api():
-    t = dict(translate.TABLES.get("jobapi") or {})
-    if not t:
-        raise RuntimeError("job API not translated")
+    t = dict(translate.TABLES.get("jobapi") or DOC_API)
     t.update(API_DEFAULT)
     return t
 
@@ -35,6 +42,8 @@ def ctrl_term(name, op):
         return "CTryRestart"
     if name == "TryGracefulRestart":
         return f"(CTryGracefulRestart {signum(op['sig'])} {op['grace']})"
+    if name == "ContinueTryGracefulRestart":
+        return "CContinueTGR"
     if name == "Signal":
         return f"(CSignal {signum(op['sig'])})"
     if name == "Delete":
@@ -50,17 +59,28 @@ def ctrl_term(name, op):
     raise KeyError(name)
 
 
+RAW_PRIO = ["PNormal", "PHigh", "PUrgent"]
+
+
+def op_sends(a, op, k):
+    """the (priority, control, flag) triples one API call enqueues; `raw` = one control at an explicit priority (hook)"""
+    if op["op"] == "raw":
+        return [f"({RAW_PRIO[op['prio']]}, {ctrl_term(op['ctrl'], dict(op, op='set_hook'))}, {2 * k + 1}%nat)"]
+    pr, ctrls = a[op["op"]]
+    n = len(ctrls)
+    return [f"({PRIO[pr]}, {ctrl_term(c, op)}, {2 * k + (1 if j == n - 1 else 0)}%nat)" for j, c in enumerate(ctrls)]
+
+
+def hops_term(ops):
+    a = api()
+    return coq_list([f"({op['at']}, {coq_list(op_sends(a, op, k))}, {'true' if op.get('yield', True) else 'false'})" for k, op in enumerate(ops)])
+
+
 def history_term(case, variant="fixed"):
     a = api()
     hops = []
     for k, op in enumerate(case["ops"]):
-        pr, ctrls = a[op["op"]]
-        n = len(ctrls)
-        sends = []
-        for j, cname in enumerate(ctrls):
-            f = 2 * k + (1 if j == n - 1 else 0)
-            sends.append(f"({PRIO[pr]}, {ctrl_term(cname, op)}, {f}%nat)")
-        hops.append(f"({op['at']}, {coq_list(sends)}, {'true' if op.get('yield', True) else 'false'})")
+        hops.append(f"({op['at']}, {coq_list(op_sends(a, op, k))}, {'true' if op.get('yield', True) else 'false'})")
     ch = []
     for b in case["script"]["children"]:
         se = f"(Some {b['self_exit']})" if b.get("self_exit") is not None else "None"
@@ -130,6 +150,23 @@ def gen_history(r, i, maxops=8, faults=True):
         if name in ("delete", "delete_now") and k < n - 2 and r.random() < 0.6:
             name = "stop"
         op = {"at": t, "op": name, "yield": r.random() < 0.7}
+        if k and r.random() < 0.15:
+            # one control at an explicit priority (any control in any lane)
+            cname = r.choice(["Start", "Stop", "GracefulStop", "TryRestart", "TryGracefulRestart", "ContinueTryGracefulRestart", "Signal", "NextEnding",
+                              "SyncFunc", "SyncFunc", "AsyncFunc"])
+            op = {"at": t, "op": "raw", "ctrl": cname, "prio": r.choice([0, 1, 1, 2, 2]), "yield": r.random() < 0.5}
+            name = "raw:" + cname
+            if cname in ("GracefulStop", "TryGracefulRestart", "Signal"):
+                op["sig"] = r.choice(SIGS)
+            if cname in ("GracefulStop", "TryGracefulRestart"):
+                op["grace"] = r.choice([0, 7, 50, 100])
+            if cname in ("SyncFunc", "AsyncFunc"):
+                op["mark"] = mark
+                mark += 1
+            if cname == "AsyncFunc":
+                op["dur"] = r.choice([0, 5, 30])
+            ops.append(op)
+            continue
         if "signal" in name:
             op["sig"] = r.choice(SIGS)
         if name.endswith("with_signal"):
@@ -171,6 +208,7 @@ ALPHABET = [
     {"op": "restart"}, {"op": "restart_with_signal", "sig": "Terminate", "grace": 50}, {"op": "try_restart"},
     {"op": "try_restart_with_signal", "sig": "Terminate", "grace": 50}, {"op": "signal", "sig": "Terminate"},
     {"op": "to_wait"}, {"op": "run"}, {"op": "run_async", "dur": 30}, {"op": "set_hook"}, {"op": "delete"}, {"op": "delete_now"},
+    {"op": "raw", "ctrl": "ContinueTryGracefulRestart", "prio": 0}, {"op": "raw", "ctrl": "NextEnding", "prio": 2}, {"op": "raw", "ctrl": "Start", "prio": 1},
 ]
 EXH_CHILDREN = [CHILD_CLASSES[0], CHILD_CLASSES[4], CHILD_CLASSES[5], CHILD_CLASSES[3]]
 
@@ -199,6 +237,12 @@ def exhaustive(maxlen, start_id, stride=1, offset=0):
                         ops.append(op)
                     out.append({"id": start_id + len(out), "script": {"children": [dict(child)], "spawn_fail": [], "signal_fail": [], "kill_fail": []},
                                 "ops": ops, "waiters": 1, "tail": 3000})
+                    if mode == "settled" and ci in (0, 1):
+                        # the same history with one injected fault: the respawn fails / the first signal fails / the first kill fails
+                        for key, val in (("spawn_fail", [1]), ("signal_fail", [0]), ("kill_fail", [0])):
+                            sc = {"children": [dict(child)], "spawn_fail": [], "signal_fail": [], "kill_fail": []}
+                            sc[key] = val
+                            out.append({"id": start_id + len(out), "script": sc, "ops": [dict(x) for x in ops], "waiters": 1, "tail": 3000})
     return out
 
 
@@ -223,7 +267,7 @@ def job_check(P, tier, seed, monitor, extra_cases=None):
               "times chosen to collide with timers and child exits, against 8 child behaviour classes and spawn / signal / kill faults, "
               "on the real start_job task (paused tokio clock, simulated child via the public spawn hook). The implementation's event log "
               "and ticket resolution times must be one of the outcomes the Coq model allows. Sources: regression corpus, a bounded-exhaustive "
-              "slice over the 14-op alphabet, random histories. non-trivial = distinct histories with a spawn and at least one of "
+              "slice over the 17-op alphabet (14 API calls + 3 raw controls), random histories. non-trivial = distinct histories with a spawn and at least one of "
               "{graceful control, fault, burst, same-instant tie}")
     r = rng(seed, "job:" + P.pid)
     cases = corpus_cases()
@@ -260,7 +304,8 @@ def job_check(P, tier, seed, monitor, extra_cases=None):
             or any(not op.get("yield", True) for op in case["ops"]) or len(ms) > 1
         if interesting and any(l.split(":", 1)[1].startswith("spawn(") for l in o["log"]):
             c.nontrivial.add(json.dumps([case["script"], case["ops"]], sort_keys=True))
-        for clause, detail in monitor(case, o):
+        # (histories with raw-priority controls are judged by the membership diff only: the monitors read API names)
+        for clause, detail in ([] if any(op["op"] == "raw" for op in case["ops"]) and not case.get("lanes") and not getattr(monitor, "raw_ok", False) else monitor(case, o)):
             c.failing.append({"case": case, "impl": impl, "clause": clause, "detail": detail})
         if len(c.samples) < 3 and interesting and len(names) >= 3:
             c.samples.append({"case": case, "impl": impl, "model_outcomes": ms[:3]})
